@@ -12,6 +12,8 @@ ensures   find_one(s, as_sid=False) == first element of find(s) or None ; find_o
           x.exists(): False for an untyped Sid, else the finder's exists(x) ; x.children(): [] for a leaf Sid (one that has its basetype's leaf key),
           else list(find(x / '*')) ; x.siblings_as(k): [] if k is not a field, else list(find(x.get_as(k).get_with(k='*'))) ; siblings() == siblings_as(keytype)
           the search asked for children is the typed search x/'*' whose parent is x; for siblings it has the parent of x.get_as(k) and '*' at k.
+frame     the read-only methods of the Finder / Getter classes store nothing into self or module globals, so a later call on changed data is not
+          answered from an earlier call's results (syntactic modifies-clause check over the class sources).
 Not claimed: 'whatever exists on the file system has an existing parent' and membership in terms of real data (needs FindInPaths / C11).
 """
 from __future__ import annotations
@@ -34,7 +36,7 @@ EXPLANATION = 'find_one / exists against an abstract find; DataSid delegation an
 BUDGET_S = {'quick': 600, 'thorough': 1800}
 
 def cases(tier):
-    cs = [('find_one', n) for n in (0, 1, 2)]
+    cs = [('find_one', n) for n in (0, 1, 2)] + [('frame',)]
     for T in C.spec_templates():
         cs += [('children', T), ('siblings', T), ('exists', T)]
     cs += [('exists', None), ('children', None)]
@@ -44,6 +46,8 @@ def cases(tier):
 
 def run(it, st, case):
     k = case[0]
+    if k == 'frame':
+        st.inputs['scan'] = 'finder / getter classes'; C.frame_scan_obligations(it, st, 'C12:finders', ('C12', 'C13')); st.observed = {}; return 'ok'
     if k == 'find_one': return run_find_one(it, st, case[1])
     if k == 'as_sid': return run_as_sid(it, st, case[1])
     return run_data(it, st, k, case[1])
